@@ -46,7 +46,7 @@ def main(argv=None) -> int:
                 continue
             rc = max(rc, run_check(p, a.tier, a.seed, mod.run))
         return rc
-    if a.what.lower() == 'extras' or a.what.upper() in ('X01', 'X02', 'X03', 'X04', 'X05', 'X06', 'X07', 'X08'):
+    if a.what.lower() == 'extras' or a.what.upper() in ('X01', 'X02', 'X03', 'X04', 'X05', 'X06', 'X07', 'X08', 'X09'):
         from .extras import EXTRAS
 
         rc = 0
